@@ -123,6 +123,52 @@ func (e *Enc) encodeTop(fn *ssa.Function, fc *FuncContract, name string) {
 	e.assume(eq(e.get(st, e.heldComp()), "((as const (Array Ref Bool)) false)"))
 	entry := st.clone()
 	fr.entry = entry
+	// function-local definitions pinned to the entry state
+	if fc != nil {
+		for _, lf := range fc.Lets {
+			if e.lets == nil {
+				e.lets = map[string]*letFn{}
+			}
+			var as, decls []string
+			ctx := e.frameCtx(fr, st, st, false)
+			c2 := ctx
+			for _, p := range lf.Params {
+				s0, t0 := e.specSort(p.Type, lf.Pkg, fn.Pos())
+				as = append(as, s0)
+				e.nfresh++
+				vn := fmt.Sprintf("%s?%d", sanitize(p.Name), e.nfresh)
+				decls = append(decls, "("+vn+" "+s0+")")
+				c2 = c2.bind(p.Name, SV{T: vn, Sort: s0, Typ: t0})
+			}
+			rs, _ := e.specSort(lf.Ret, lf.Pkg, fn.Pos())
+			sym := "let_" + sanitize(lf.Name)
+			if len(as) == 0 {
+				e.hdrOnce("let:"+sym, fmt.Sprintf("(declare-const %s %s)", sym, rs))
+			} else {
+				e.hdrOnce("let:"+sym, fmt.Sprintf("(declare-fun %s (%s) %s)", sym, strings.Join(as, " "), rs))
+			}
+			e.lets[lf.Name] = &letFn{sym: sym, argSorts: as, ret: rs}
+			if lf.Body != nil {
+				body, err := e.evalSpec(lf.Body, c2)
+				if err != nil {
+					e.errorf("%s: let %s: %v", name, lf.Name, err)
+					continue
+				}
+				body = e.adapt(body, rs)
+				var app string
+				var vs []string
+				for _, d := range decls {
+					vs = append(vs, strings.Fields(strings.Trim(d, "()"))[0])
+				}
+				if len(vs) == 0 {
+					e.assume(eq(sym, body.T))
+				} else {
+					app = "(" + sym + " " + strings.Join(vs, " ") + ")"
+					e.assume(fmt.Sprintf("(forall (%s) (! (= %s %s) :pattern (%s)))", strings.Join(decls, " "), app, body.T, app))
+				}
+			}
+		}
+	}
 	if fc != nil {
 		// monitors held on entry
 		for _, h := range fc.Holds {
@@ -136,6 +182,26 @@ func (e *Enc) encodeTop(fn *ssa.Function, fc *FuncContract, name string) {
 			}
 			e.assume(t)
 		}
+	}
+	// global axioms about uninterpreted spec functions
+	used := e.usedSpecFns(fc)
+	for _, ax := range e.cs.Axioms {
+		relevant := false
+		for n := range callNames(ax.Expr, map[string]bool{}) {
+			if sf := e.cs.SpecFns[n]; sf != nil && sf.Body == nil && used[n] {
+				relevant = true
+			}
+		}
+		if !relevant {
+			continue
+		}
+		ctx := &SpecCtx{e: e, pkg: modPath, params: map[string]SV{}, cur: st, old: st}
+		sv, err := e.evalSpec(ax.Expr, ctx)
+		if err != nil {
+			e.errorf("axiom %s: %v", ax.Label, err)
+			continue
+		}
+		e.assume(sv.T)
 	}
 	e.addCover("requires-satisfiable", "true")
 	entry = cur.st.clone()
@@ -291,4 +357,69 @@ func splitConjuncts(x SExpr) []SExpr {
 		}
 	}
 	return []SExpr{x}
+}
+
+// callNames collects the names of the functions applied in a spec expression.
+func callNames(x SExpr, out map[string]bool) map[string]bool {
+	switch n := x.(type) {
+	case *SCall:
+		out[strings.TrimPrefix(n.Fn, ".")] = true
+		for _, a := range n.Args {
+			callNames(a, out)
+		}
+	case *SBin:
+		callNames(n.L, out)
+		callNames(n.R, out)
+	case *SUn:
+		callNames(n.X, out)
+	case *SQuant:
+		callNames(n.Body, out)
+	case *SField:
+		callNames(n.X, out)
+	case *SIndex:
+		callNames(n.X, out)
+		callNames(n.I, out)
+	}
+	return out
+}
+
+// usedSpecFns: spec functions mentioned (transitively through spec fn bodies) by a contract.
+func (e *Enc) usedSpecFns(fc *FuncContract) map[string]bool {
+	used := map[string]bool{}
+	if fc == nil {
+		return used
+	}
+	var work []SExpr
+	add := func(cs []*Clause) {
+		for _, c := range cs {
+			work = append(work, c.Expr)
+		}
+	}
+	add(fc.Requires)
+	add(fc.Ensures)
+	add(fc.GhostEffects)
+	add(fc.CallAsserts)
+	add(fc.InlineLoopInv)
+	for _, l := range fc.LoopInv {
+		add(l)
+	}
+	for _, l := range fc.Lets {
+		if l.Body != nil {
+			work = append(work, l.Body)
+		}
+	}
+	for len(work) > 0 {
+		x := work[len(work)-1]
+		work = work[:len(work)-1]
+		for n := range callNames(x, map[string]bool{}) {
+			if used[n] {
+				continue
+			}
+			used[n] = true
+			if sf := e.cs.SpecFns[n]; sf != nil && sf.Body != nil {
+				work = append(work, sf.Body)
+			}
+		}
+	}
+	return used
 }
